@@ -1,18 +1,17 @@
 CFG = dict(
-    theorems=["C10.each_once_counting", "C10.session_bounds", "C10.no_early_delivery", "C10.gap_splits_partial", "C10.gap_splits_fails"],
-    unproved=["C10.gap_splits_full (false of the code as it is: negation proved as gap_splits_fails; recorded finding class out-of-order-across-gap)",
-              "schedule independence for in-order input as a theorem over pairs of schedules (checked on implementation traces by the reference-sessionization clause of the oracle at flush)"],
-    rule="event-time session op sequences over 1-3 keys: dense bursts, gaps timeout-1 / timeout / timeout+1 / 3*timeout+, in-order per case with prob 2/3 else out of order within and beyond the tolerance, "
-         "far-future and timestamp-less rows, deliveries at arbitrary positions incl. Adds in the unlock gap; distinct = distinct (cfg, op list)",
+    theorems=["C10.each_once_counting", "C10.session_bounds", "C10.no_early_delivery", "C10.gap_splits", "C10.open_sessions_apart", "C10.joins_exactly_the_touched"],
+    unproved=["schedule independence for in-order input as a theorem over pairs of schedules (checked on implementation traces by the reference-sessionization clause of the oracle at flush)"],
+    rule="event-time session op sequences over 1-3 keys: dense bursts, gaps timeout-1 / timeout / timeout+1 / 3*timeout+, in-order per case with prob 2/3 else out of order within and beyond the tolerance (incl. events that bridge two open sessions), "
+         "far-future and timestamp-less rows, deliveries at arbitrary positions incl. Adds in the unlock gap; SQL-level cases through the public API; distinct = distinct (cfg, op list)",
     assumptions=["one expiry pass delivers its sessions in Go map order: the harness canonicalises each pass (key, start)",
-                 "pre-1970 timestamps outside the generator",
-                 "processing-time session windows are not modelled (the property is stated for event time)",
+                 "row order inside a merged session (earlier session's rows first, the bridging row last) is compared as coded; the property does not order rows inside a session",
+                 "two events exactly the timeout apart: the property allows either; code and model start a new session (ts >= end), which makes the outcome schedule-independent",
+                 "pre-1970 timestamps outside the generator; processing-time session windows are not modelled",
                  "mutex mutual exclusion: every op is one critical section; the harness drives the real window without its goroutines"],
 )
 META = dict(
-   text="Proof: for every timeout, tolerance, key set and op sequence of the session model: open+delivered rows = rows accepted on time (each once), every delivered session is non-empty with window_start = earliest row and window_end = latest row + timeout, "
-        "and it is delivered only at or below the watermark; the gap clause (consecutive timestamps within the timeout, rows further apart never together) holds under the decidable hypothesis H 'no on-time row arrives out of order across a gap of its key'; "
-        "the full statement is refuted by a kernel-checked witness and recorded as a known finding (class out-of-order-across-gap). "
-        "Tied to window/session_window.go by replaying generated op sequences on the real SessionWindow and comparing every delivery; a declarative oracle (gap clause, bounds, maximality, reference sessionization at flush) runs on the implementation's deliveries.",
-   note="Trusted: Lean kernel; hand-written model tied by correspondence; Go mutex semantics; harness. Known finding: out-of-order-across-gap (known-findings.txt). Schedule independence is checked by the oracle on traces, not proved.",
+   text="Proof: for every timeout, tolerance, key set and op sequence of the session model (several open sessions per key, merge on bridge): open+delivered rows = rows accepted on time (each once), every delivered session is non-empty with window_start = earliest row and window_end = latest row + timeout, "
+        "it satisfies the gap clause (consecutive timestamps within the timeout, rows further apart with nothing in between never together), it is delivered only at or below the watermark, and open sessions of one key always stay a full timeout apart (Lean theorems, unbounded). "
+        "Tied to window/session_window.go by replaying generated op sequences on the real SessionWindow and comparing every delivery; a declarative oracle (gap clause, bounds, maximality, reference sessionization at flush) runs on the implementation's deliveries, also at SQL level.",
+   note="Trusted: Lean kernel; hand-written model tied by correspondence; Go mutex semantics; harness. Schedule independence is checked by the oracle on traces (reference sessionization), not proved as a theorem about pairs of schedules.",
 )
